@@ -301,6 +301,28 @@ than one cycle's worth" nor "never runs ahead by more than one cycle's worth" ho
 theorem small_miners_starve_then_flood :
     runCycles smallMiners 5 { H := 300, target := 300 } = [0, 0, 0, 1200, 1200] := by decide
 
+/-! ### whole miners on a contract below the whole-miner threshold (known finding) -/
+
+def accAfter (al : Alloc) : Nat → Acc → Acc
+  | 0, a => a
+  | n + 1, a => accAfter al n (cycle al a 0).1
+
+/-- one 200 GH/s miner, taken for one-cycle jobs -/
+def oneSmall : Alloc := { addFull := fun _ => 0, addPartial := fun r => min r 200, shed := fun _ => 0 }
+/-- two miners of 750 GH/s have joined -/
+def twoJoined : Alloc :=
+  { addFull := fun r => min (r / 750) 2 * 750, addPartial := fun r => min r 200, shed := fun x => min ((x + 749) / 750) 2 * 750 }
+
+/-- **whole miners taken on to make up a shortfall overstay on a small contract**: a 400 GH/s contract served by 200 GH/s for
+six cycles owes 1200; the two 750 GH/s miners that join are taken whole (the request, 1600, is above the 1000 GH/s
+threshold), the shortfall is gone after one cycle, and they stay for another one because the surplus (1000) is not *above*
+the threshold: the contract is then 1000 GH/s·cycles ahead, two and a half cycles' worth — "never leads by more than one
+cycle's worth" does not hold -/
+theorem whole_miners_overstay :
+    (runCycles oneSmall 6 { H := 400, target := 400 } = [200, 200, 200, 200, 200, 200]) ∧
+    (runCycles twoJoined 4 (accAfter oneSmall 6 { H := 400, target := 400 }) = [1500, 1500, 0, 0]) ∧
+    (accAfter twoJoined 2 (accAfter oneSmall 6 { H := 400, target := 400 })).gU = -1000 := by decide
+
 /-! ### "a miner that has done the work asked of it is taken off that contract": the watcher's books -/
 
 section tracking
